@@ -153,6 +153,20 @@ impl JapaneseDictionary {
                 ));
             }
         }
+
+        // part-of-speech ids are u16 and LexiconSet narrows the rebased id of a user-defined
+        // part of speech to u16: every entry of the merged list must stay addressable
+        if let Some(g) = &user_dict.grammar {
+            let merged = self._grammar.pos_list.len() + g.pos_list.len();
+            if merged > u16::MAX as usize + 1 {
+                return Err(SudachiError::InvalidPartOfSpeech(format!(
+                    "Too much POS tags registered: {} with the {} of this user dictionary, at most {} are supported",
+                    merged,
+                    g.pos_list.len(),
+                    u16::MAX as usize + 1
+                )));
+            }
+        }
         user_lexicon.update_cost(&self)?;
 
         self._lexicon
